@@ -35,6 +35,8 @@ THEOREMS = [
     "C04.repeat_framed",
     "C04.retry_fresh",
     "C04.repeat_fresh",
+    "C04.catalogue_ops_resubscribe_same",
+    "C04.catalogue_agg_resubscribe_same",
     "C04.zip_asis_not_resubscribable",
     "C04.zip_asis_not_framed",
 ]
@@ -762,5 +764,5 @@ LEVEL_TEXT = ("Lean: `captures_cold_ok` (kernel `decide` over the capture table 
               "2-3 times sequentially/overlapping must deliver the same relative notifications.")
 LEVEL_NOTE = ("The theorem is about the abstract frame model; that the real operators satisfy its hypothesis is the capture table (a syntactic, "
               "fail-closed AST analysis with stated classification rules, an allow-list of 8 justified entries and the multicasting files excluded as the "
-              "property says) plus the resubscription oracle; only ten operators have executable models run against the code. Needs the fix patches "
+              "property says) plus the resubscription oracle; ten operators have models of their own run against the code by this check; in addition `catalogue_ops_resubscribe_same` / `catalogue_agg_resubscribe_same` instantiate the frame theorem for EVERY handler record of the element-wise family (Ops.Op: empty, map, filter, filter_indexed, take, skip, take_while(_indexed), skip_while(_indexed), zip_with_iterable, map_indexed, distinct, distinct_until_changed, pairwise, start_with, default_if_empty, ignore_elements, take_last, skip_last, take_last_buffer, element_at(_or_default), find, find_index, materialize, dematerialize, scan, slice pipelines) and of the aggregating family (Agg.Op: map, filter, scan, reduce, count, sum, average, min, max, min_by, max_by, first/last/single(_or_default), some, all, contains, is_empty, to_list, to_set, to_dict and their compositions) — those records are tied to the code by C05-C08's correspondences, not by this check. Needs the fix patches "
               "fixes/C04_*.patch and the C41 from_callback fix: on the unfixed tree the check reports VIOLATION with a resubscription replay.")
